@@ -133,16 +133,19 @@ int TextFormatter::apr(File& f, const char *fmt, ...)
     case 'd':
       i = va_arg(ap, int);
 have_i:
-      if (i < 0) {
-        putc('-',fd);
-        i = -i;
+      {     // magnitude in unsigned arithmetic: -INT_MIN overflows
+        unsigned long long u = i, uj;
+        if (i < 0) {
+          putc('-',fd);
+          u = 0ull - u;
+        }
+        s = buf;
+        do {
+          uj = u / 10;
+          *s++ = (char)(u - 10*uj + '0');
+        }
+        while((u = uj));
       }
-      s = buf;
-      do {
-        j = i / 10;
-        *s++ = i - 10*j + '0';
-      }
-      while((i = j));
       do {
         i = *--s;
         putc(i,fd);
